@@ -572,6 +572,33 @@ func TestVerif_C12_RaceStress(t *testing.T) {
 				return
 			}
 			res := make(chan error, 2)
+			if i%2 == 1 {
+				// two finishes of the same seed at once (a repeated finish is rejected without side effects: exactly one of
+				// them succeeds, one token is given back). A second seed holds the other token meanwhile, so that a token
+				// released in excess is visible and a call that wants one more than there are cannot park for ever.
+				other := c12NewSeed(fmt.Sprintf("r%d-other", i))
+				if err := ReceiveInsert(other); err != nil {
+					viol = fmt.Sprintf("round %d: insert: %v", i, err)
+					return
+				}
+				go func() { res <- MarkAsFinished(it) }()
+				go func() { res <- MarkAsFinished(it) }()
+				e1, e2 := <-res, <-res
+				if (e1 == nil) == (e2 == nil) {
+					viol = fmt.Sprintf("round %d: two concurrent finish(%s): results %v and %v, exactly one must succeed", i, it.GetID(), e1, e2)
+					return
+				}
+				if n, tb := len(r.tokenPool), len(GetStateTable()); n != 1 || tb != 1 {
+					viol = fmt.Sprintf("round %d: after two concurrent finish(%s) with %s still in flight: %d token(s) in use, state table %v", i, it.GetID(), other.GetID(), n, GetStateTable())
+					return
+				}
+				if err := MarkAsFinished(other); err != nil {
+					viol = fmt.Sprintf("round %d: finish(%s): %v", i, other.GetID(), err)
+					return
+				}
+				done++
+				continue
+			}
 			go func() { res <- ReceiveFeedback(it) }()
 			go func() { res <- MarkAsFinished(it) }()
 			<-res
